@@ -1,19 +1,21 @@
 #!/bin/bash
-# usage: tools_verify_seed.sh <tag> [<package> <test-name>]   — confirms a seeded change in the scratch worktree /tmp/wt-verify:
-# existing suite passes with it; the demonstration fails with it and passes without it.
-tag="$1"; pkg="$2"; tname="$3"
-src=/tmp/seeded/$tag; wt=/tmp/wt-verify; export CARGO_TARGET_DIR=$wt/target
+# usage: tools_verify_seed.sh <tag> [<package> <test-name>]   — confirms a seeded change in the adversary's own scratch
+# worktree /tmp/wt-<tag> (already built there): existing suite passes with the change; the demonstration fails with it and
+# passes without it.  Leaves the worktree clean (build output kept until the worktree is removed).
+tag="$1"; pkg="${2:-mimium-test}"; tname="${3:-$(echo $tag | tr 'A-Z' 'a-z')_demo}"
+src=/tmp/seeded/$tag; wt=/tmp/wt-$tag; export CARGO_TARGET_DIR=$wt/target
+mkdir -p /verif/logs/verify; log=/verif/logs/verify/$tag.log; : > $log
 cd $wt || exit 2
 git checkout -q -- . ; git clean -fdq -e target
-git apply $src/patch.diff || { echo "VERIFY $tag: patch does not apply"; exit 2; }
+git apply $src/patch.diff || { echo "VERIFY $tag: patch does not apply" | tee -a $log; exit 2; }
 suite=$(cargo nextest run --workspace --no-fail-fast --offline --test-threads 8 2>&1 | grep -E "Summary" | tail -1)
-echo "VERIFY $tag suite-with-change: $suite"
-if [ -n "$pkg" ]; then
-  git apply $src/demo.diff 2>/dev/null || cp $src/demo_test.rs $(grep -o 'crates/[^ ]*\.rs' $src/demo.diff | head -1) 2>/dev/null
-  with=$(cargo test --offline -p $pkg --test $tname 2>&1 | grep -E "^test result" | tail -1)
+echo "VERIFY $tag suite-with-change: $suite" | tee -a $log
+if [ -f $src/demo.diff ]; then
+  git apply $src/demo.diff || { echo "VERIFY $tag: demo.diff does not apply" | tee -a $log; }
+  with=$(cargo test --offline -p $pkg --test $tname 2>&1 | grep -E "^test result|error(\[|:)" | tail -1)
   git apply -R $src/patch.diff
-  without=$(cargo test --offline -p $pkg --test $tname 2>&1 | grep -E "^test result" | tail -1)
-  echo "VERIFY $tag demo-with-change: $with"
-  echo "VERIFY $tag demo-without-change: $without"
+  without=$(cargo test --offline -p $pkg --test $tname 2>&1 | grep -E "^test result|error(\[|:)" | tail -1)
+  echo "VERIFY $tag demo-with-change: $with" | tee -a $log
+  echo "VERIFY $tag demo-without-change: $without" | tee -a $log
 fi
 git checkout -q -- . ; git clean -fdq -e target
